@@ -9,11 +9,23 @@ sys.path.insert(0, HERE)
 def main():
     import instantiate
     instantiate.main()
+    rc = 0
     try:
         import py2lean_targets
+        rc = py2lean_targets.regen_all() or 0
     except ImportError:
-        return 0
-    return py2lean_targets.regen_all()
+        pass
+    for gen in ('gen_classtable', 'gen_adim'):
+        try:
+            mod = __import__(gen)
+        except ImportError:
+            continue
+        try:
+            mod.main()
+        except SystemExit:
+            pass
+    instantiate.main()
+    return rc
 
 
 if __name__ == '__main__':
